@@ -122,6 +122,12 @@ func RandomHistories(w *WorldJSON, seed int64, n, depth int, routers []string, f
 						args["rotateMid"] = true
 					}
 				}
+				if op == "DeviceAuthorize" && (focus == "device" || focus == "clientauth" || focus == "faults") && rng.Intn(5) == 0 {
+					// the storage reports a user-code collision once (op.ErrDuplicateUserCode: "try again with a new code")
+					args["fault"], args["faultKind"], args["faultOnce"] = "StoreDeviceAuthorization", "dupcode", true
+					emit(op, args)
+					continue
+				}
 				if fm := faultMethods[op]; len(fm) > 0 && (rng.Intn(10) == 0 || ((focus == "faults" || focus == "authorize") && rng.Intn(3) == 0)) {
 					// C10: a storage call fails while this request is served
 					args["fault"] = fm[rng.Intn(len(fm))]
